@@ -658,6 +658,89 @@ PROPS["C11"] = {
 }
 
 
+# ---------------------------------------------------------------------------------- C06
+def _c06_stats(lines, sessions, R, M):
+    """distinct inputs by the real parser's verdict; F12 witnesses that still reproduce"""
+    seen = set()
+    acc = rej = nt = 0
+    shapes = {"optional": 0, "bind": 0, "params": 0, "regex": 0, "multi_param": 0, "spacing_normalised": 0}
+    f12 = 0
+    samples = []
+    for i, l in enumerate(lines):
+        f = l.split()
+        if not f:
+            continue
+        if f[0] == "DOCW":
+            if i < len(R) and R[i].endswith(" differs"):
+                f12 += 1
+            continue
+        if f[0] != "PARSE" or f[1] in seen:
+            continue
+        seen.add(f[1])
+        out = R[i].split() if i < len(R) else []
+        if out and out[0] == "ok":
+            acc += 1
+            ast = out[2]
+            structured = False
+            if "o" in [s[:1] for s in ast.split("|")]:
+                shapes["optional"] += 1; structured = True
+            if ".B" in ast:
+                shapes["bind"] += 1; structured = True
+            if ".P" in ast:
+                shapes["params"] += 1; structured = True
+            if ":R" in ast:
+                shapes["regex"] += 1
+            if "," in ast:
+                shapes["multi_param"] += 1
+            if out[1] != f[1]:
+                shapes["spacing_normalised"] += 1
+            if structured:
+                nt += 1
+                if len(samples) < 3 and ".P" in ast:
+                    samples.append({"op": l, "real": R[i]})
+        else:
+            rej += 1
+            hexs = [f[1][j:j + 2] for j in range(0, len(f[1]), 2)]
+            if hexs[:1] == ["2f"] and "7b" in hexs:   # starts with '/' and contains '{'
+                nt += 1
+    return {"distinct_inputs": len(seen), "accepted": acc, "rejected": rej, "distinct_nontrivial": nt,
+            "rule": "distinct input strings; non-trivial = accepted with an optional marker, a bind or a parameter list in the "
+                    "AST (AST, canonical string and fixpoint all compared), or rejected although it starts with '/' and contains a '{' "
+                    "(gets past the Root state and reaches the bind lexer states)",
+            "accepted_shapes": shapes, "f12_witnesses_reproduced": f12, "samples": samples}
+
+
+PROPS["C06"] = {
+    "technique": "Lean 4 theorems over a lexer that interprets the regenerated rule table and a recursive-descent parser for the "
+                 "struct-tag grammar (soundness, completeness, canonical form) + exhaustive-to-length and random differential "
+                 "correspondence with the real participle-based parser",
+    "level_text": "parse_complete / parse_sound / render_canonical / parse_render / render_fixpoint / never_panics are Lean theorems "
+                  "for all byte strings and all ASTs over Model/Lexer + Model/Parser; the lexer model interprets the rule table the "
+                  "translator regenerates from parser.go (patterns reduced to byte sets with Go's regexp), classes_documented / "
+                  "rules_documented / grammar_documented pin the regenerated facts; the model is tied to the real parser by "
+                  "comparing verdict, AST (from the exported struct fields), Route.String() and the fixpoint on every string up to a "
+                  "length bound over a 12-symbol token alphabet, all small well-formed ASTs with random spacing, mutations and "
+                  "random bytes.",
+    "level_note": "Trusted: Lean kernel; participle's lexer/parser engine is modelled (observationally checked, exhaustively to a "
+                  "length bound), not verified; Go regexp is used by the translator to reduce the lexer patterns to byte sets. "
+                  "Known finding F12: the README's BNF and the lexer's classes differ ('documented grammar' = the lexer rules + struct tags).",
+    "props_modules": ["Flamego.Props.C06"],
+    "suite": "C06",
+    "stats": _c06_stats,
+    "known_match": no_known,
+    "trusted_base": COMMON_TRUST + [
+        "modelled, not verified: participle v2.1.4 (stateful lexer: first matching rule, push/pop, eager lexing; parser: "
+        "ordered alternatives, groups, lookahead 2) - its observable behaviour on this grammar is what Model/Lexer + "
+        "Model/Parser are compared with",
+        "Go regexp as used by the translator: each lexer pattern is reduced to the set of single bytes it accepts and "
+        "whether it repeats; the translator refuses patterns that are not a single ASCII character class (optionally under +)"],
+    "assumptions": ["Go's regexp matches a character class byte-wise on ASCII input and never matches a byte >= 0x80 "
+                    "(invalid UTF-8 decodes to U+FFFD) against an ASCII class",
+                    "the parser is used through Parser.Parse only (ParseString, no Elide/Mapper options beyond those regenerated "
+                    "into Gen.parserOptions)"],
+}
+
+
 # ------------------------------------------------------------------- router suites
 import router_props as rp
 
